@@ -1803,6 +1803,8 @@ package sarama
 //@   ensures[suffix_is_the_partitions] len(partitions) > 0 ==> forall k :: 0 <= k && k < len(partitions) ==> p[memberID][topic][len(p[memberID][topic]) - len(partitions) + k] == partitions[k]
 //@   ensures[prefix_kept] len(partitions) > 0 && old(haskey(p, memberID)) ==> forall k :: 0 <= k && k < old(len(p[memberID][topic])) ==> p[memberID][topic][k] == old(p[memberID][topic][k])
 
+// (C13) rr_balance: totals of a round-robin deal differ by at most one (corollary of rr_kth_pair_to_member_k_mod_n)
+//@ lean[roundrobin] lean/RoundRobin.lean props C13
 //@ ghost field roundRobinBalancer.adds int
 
 // a member is subscribed to a topic iff the topic is in its set
@@ -1855,6 +1857,13 @@ package sarama
 //@   loop pairs: invariant[member_subs] forall k int, t string :: 0 <= k && k < len(members) && haskey(members[k].topics, t) ==> exists j :: 0 <= j && j < len(memberAndMetadata[members[k].memberID].Topics) && memberAndMetadata[members[k].memberID].Topics[j] == t
 //@   loop 5: invariant i >= 0 && n == len(members) && n > 0 && 0 <= i % n && i % n < n && m == members[i % n] && m.memberID == members[i % n].memberID && m.topics == members[i % n].topics
 //@   loop 5: invariant[m_is_a_member] haskey(memberAndMetadata, m.memberID) && forall t string :: haskey(m.topics, t) ==> exists j :: 0 <= j && j < len(memberAndMetadata[m.memberID].Topics) && memberAndMetadata[m.memberID].Topics[j] == t
+// (C13) identical subscriptions (every member is subscribed to every topic that is planned): the search for a
+// subscriber never skips, the cursor equals the number of pairs handled, and the k-th pair of the sorted list goes to
+// member k mod n of the sorted members. That the totals then differ by at most one is the arithmetic corollary
+// rr_balance (lean/RoundRobin.lean).
+//@   loop pairs: invariant[rr_cursor @C13] (forall k int, t string :: 0 <= k && k < len(members) && haskey(topics, t) ==> haskey(members[k].topics, t)) ==> i == $i
+//@   loop 5: invariant[rr_cursor @C13 +only_existing] (forall k int, t string :: 0 <= k && k < len(members) && haskey(topics, t) ==> haskey(members[k].topics, t)) ==> i == $i_pairs
+//@   callsite BalanceStrategyPlan.Add: requires[rr_kth_pair_to_member_k_mod_n @C13 +rr_cursor] (forall k int, t string :: 0 <= k && k < len(members) && haskey(topics, t) ==> haskey(members[k].topics, t)) ==> i == $i_pairs && $memberID == members[i % n].memberID
 // the cursor i only grows; it stays far below 2^63 for any plan that can be computed (A-mathint)
 //@   math_ints
 //@   nosafety
